@@ -270,11 +270,12 @@ class Run:
 
 TRUSTED_BASE = [
     "Coq 8.16.1 kernel (coqc), including vm_compute (used in reflection proofs and in every correspondence evaluation); native_compute is not used",
-    "axioms: none -- every theorem in theories/Props is 'Closed under the global context' (audited on every run)",
-    "translators tools/gen_tables.py (keyword/spelling/template tables) and tools/gen_grammar.py (xdr.pest -> Grammar.v)",
+    "axioms: none -- every theorem in theories/Props is 'Closed under the global context' (audited on every run); coqchk -o over all property files: Axioms <none> (run by hand)",
+    "translators tools/gen_tables.py (keyword/spelling/template tables; when it cannot read a changed source shape, the tables in use are validated against the real generator on every candidate spelling instead) and tools/gen_grammar.py (xdr.pest -> Grammar.v)",
+    "the Python mirror of Spec.v in tools/valgen.py (typing, enc, expected values) used by the generators, cross-checked against Spec.v on every generated value (K4)",
     "harness dumpers (harness/front, harness/runner) that print real ASTs, generated text and run-time observations, and tools/coqterm.py that prints them as Coq terms",
     "hand-written model of header.rs (Runtime.v), of the emitters (Emit.v, Render.v), of the semantics of the emitted Rust fragment (Sem.v), of the walker/indexes and of pest: tied to /repo by the correspondence checks K1/K2/K3, which are sampling",
-    "rustc/cargo, the bytes crate and the OS for what the harness observes",
+    "rustc/cargo, the bytes crate and the OS for what the harness observes; the harness's watchdog (20 s per specification) and restart-after-signal logic",
 ]
 RULES = {}
 ASSUMPTIONS = {}
